@@ -46,7 +46,7 @@ HARNESSES = {
     # routed through the harness, so that these requests can be refused too (c01_uref.c: vf_malloc)
     "c01_uref": {"src": [H + "c01_uref.c"] + [((f, ["-Dmalloc=vf_malloc"]) if f in (R + "uref_std.c", R + "udict_inline.c", R + "ubuf_block_mem.c", R + "ubuf_mem_common.c") else f)
                                                for f in PIPEX]},
-    "c12_request": {"src": [H + "c12_request.c", T + "upipe_ts_align.c", T + "upipe_ts_sync.c", T + "upipe_ts_check.c", "@REPO@/lib/upipe-framers/upipe_auto_framer.c"] + PIPEX},
+    "c12_request": {"src": [H + "c12_request.c", M + "upipe_segment_source.c", T + "upipe_ts_align.c", T + "upipe_ts_sync.c", T + "upipe_ts_check.c", "@REPO@/lib/upipe-framers/upipe_auto_framer.c"] + PIPEX},
     "c14_rechunk": {"src": [H + "c14_rechunk.c", T + "upipe_ts_sync.c", T + "upipe_ts_check.c", T + "upipe_ts_align.c"] + PIPEX},
     "pipex_cat": {"src": [H + "pipex_cat.c", T + "upipe_ts_sync.c", T + "upipe_ts_check.c", T + "upipe_ts_align.c", T + "upipe_ts_psi_split.c", T + "upipe_ts_split.c",
                           T + "upipe_ts_pid_filter.c", T + "upipe_ts_pcr_interpolator.c", T + "upipe_ts_tstd.c",
@@ -590,6 +590,8 @@ def _c12_jobs(tier):
     # travel past uprobe_ubuf_mem to the application probe placed after it
     for topo in (0, 1):
         jobs.append(("c12_request", ["--topo", topo, "--pool", 0, "--reqs", "0,3,4", "--tprov", 2, "--hwdef", 1, "--depth", 5 if q else 6, "--deadline", dl]))
+    # topology 7: the real segment-source bin with a request of its own (uclock) in its bin-output list; only plumbing operations
+    jobs.append(("c12_request", ["--topo", 7, "--pool", 0, "--reqs", "2", "--tprov", 0, "--depth", 6 if q else 8, "--deadline", dl]))
     for tprov in (1, 2):
         jobs.append(("c12_request", ["--topo", 6, "--pool", 0, "--reqs", "1,3,4", "--tprov", tprov, "--depth", 5 if q else 6, "--deadline", dl]))
     jobs.append(("c12_request", ["--topo", 6, "--pool", 0, "--nreq", 3, "--depth", 5 if q else 6, "--deadline", dl]))
